@@ -36,12 +36,12 @@ SimNext ==
           \/ WaitCtxDone(c) /\ Log(Mark(Mark("WaitCtxDone", rem[c] < n[c], "partial"), resp[c] # <<>>, "unread"), c)
      \/ \E s \in Combos :
           \/ LoopStart(s) /\ Log("LoopStart", s)
-          \/ LoopRecv(s) /\ Log("LoopRecv", s)
+          \/ LoopRecv(s) /\ Log(Mark("LoopRecv", HasTimer /\ cnt[s] > 0 /\ deadline[s] >= 0 /\ deadline[s] < now + T, "trickle"), s)
           \/ DrainRecv(s) /\ Log("DrainRecv", s)
-          \/ FlushSplit(s) /\ Log("FlushSplit", s)
+          \/ FlushSplit(s) /\ Log(Mark("FlushSplit", M > 0 /\ cnt[s] > M, "splitrest"), s)
           \/ FlushDone(s) /\ Log("FlushDone", s)
           \/ TimerFire(s) /\ Log("TimerFire", s)
-          \/ TimerSplit(s) /\ Log("TimerSplit", s)
+          \/ TimerSplit(s) /\ Log(Mark("TimerSplit", M > 0 /\ cnt[s] > M, "timerpartial"), s)
           \/ TimerRearm(s) /\ Log("TimerRearm", s)
           \/ SeeShutdown(s) /\ Log("SeeShutdown", s)
           \/ DrainDone(s) /\ Log("DrainDone", s)
